@@ -117,6 +117,22 @@ theorem C18_guards_enumerated :
     (∀ g ∈ guards, g.guardMacro ≠ "CELLO_ALLOC_CHECK" → GExpr.readsClass g.cond = false) := by
   decide +kernel
 
+/-- **`CELLO_MEMORY_CHECK` is about the allocator, not about the program** (audit 2, item 5; fix 63509f2).  Every guard of that
+    family compares with NULL exactly the pointers that the statements standing DIRECTLY before the `#if` assigned from
+    `malloc` / `calloc` / `realloc` — nothing reads or writes through the pointer between the allocation and the test, so in a
+    checked build a failed allocation raises before anything else happens, and on every run without allocation failure (the
+    workload's assumption) the guard is false whatever the program did: compiling it out changes nothing.  Two listed
+    exceptions: `String_New` tests `s->val` after `if (len(args) > 0) String_Assign(…) else s->val = calloc(1, 1)` (both branches
+    allocate; `String_Assign` has its own guard), and the guard of `Type_New` bounds `len(args)` — a statement about the
+    program: hypothesis `hn` of the run-time type theorems below.  (`memoryChecks` lists the blocks of every platform branch,
+    `guards` those compiled on Linux: the first conjunct says none of the latter is missing.)  `String_Resize` before 63509f2 (`memset` / terminator
+    write through `s->val` between `realloc` and the test) fails this theorem. -/
+theorem C18_memory_checks_follow_allocation :
+    (∀ g ∈ guards, g.guardMacro = "CELLO_MEMORY_CHECK" → g.func ∈ memoryChecks.map (·.func)) ∧
+    ∀ m ∈ memoryChecks, m.func ∈ ["String_New", "Type_New"] ∨
+      (m.tested ≠ [] ∧ ∀ x ∈ m.tested, x ∈ m.allocated.map (·.1)) := by
+  decide +kernel
+
 /-- the four allocation classes of the model are the enumerators of Cello.h, with pairwise distinct values (so `alloc is X`
     tells the classes apart) -/
 theorem C18_alloc_enum_distinct :
@@ -362,6 +378,73 @@ theorem C18_cache_and_collector_unobservable (cfg : Cfg) (hc : cfg.checks = true
     (run cfg prog St.init).1.observe = (run Cfg.default prog St.init).1.observe := by
   obtain ⟨h1, h2⟩ := run_full cfg prog (Equiv.refl St.init) (WF_init _) (WF_init _)
   exact ⟨h1.eq_of_checks hc, (C18_equiv_observe _ _ h2).symm⟩
+
+/-! ### process exit: the one place where an in-contract program CAN tell a build with the collector from one without
+
+  Cello.h wraps `main` only `#ifndef CELLO_NGC`: `atexit(Cello_Exit)` → `del_raw(current(GC))` → `GC_Del` sweeps with no mark bit set
+  and runs the destructor of every object still registered.  A CELLO_NGC build never finalises an object the program did not
+  delete itself.  For a type whose destructor does something the outside can see (the harness's `Tracked`: a ledger) the two
+  builds therefore differ on a program that takes no error path at all — known finding KF-C18-exit-finalisation.  Model:
+  `Keep.kexit`, `Keep.ledger`, `Keep.endLedger` (Cello/Config.lean); the hypothesis that removes the territory is
+  `Keep.ReleasesAll` (decidable). -/
+
+/-- the exit path of /repo is the one `Keep.kexit` was written against: the `main` wrapper (inside `#ifndef CELLO_NGC`)
+    registers `Cello_Exit`, which exists only with the collector and deletes it; `GC_Del` unmarks and sweeps -/
+theorem C18_exit_hook_as_modelled :
+    exitHook.map (·.2.1) = exitHook.map (·.2.2) ∧
+    exitHook.map (·.1) = ["main wrapper (Cello.h, #ifndef CELLO_NGC)", "Cello_Exit scope (src/GC.c)", "Cello_Exit", "GC_Del"] := by
+  decide +kernel
+
+/-- the FULL statement for the destructor ledger: whatever the program, every configuration has run the same destructors
+    when the process has ended.  It is false (`C18_process_end_refuted`). -/
+def C18_process_end_statement : Prop :=
+  ∀ (c₁ c₂ : Cfg) (prog : List Keep.KOp), Keep.endLedger c₁ prog = Keep.endLedger c₂ prog
+
+/-- a program that takes no error path: an Array of two objects, one removed and deleted, the holder then dropped -/
+def exitWitness : List Keep.KOp := [.hnew 0 .array, .hput 0 0 0 5, .hput 0 1 1 6, .hrem 0 0, .hdrop 0]
+
+/-- **KF-C18-exit-finalisation (refuted on a witness).** Every step of `exitWitness` is in contract in every configuration;
+    when the process has ended, a build with the collector has finalised both objects (serial 1 by the exit-time sweep, or
+    by a collection before), the build without it only the one the program deleted. -/
+theorem C18_process_end_refuted :
+    (∀ c : Cfg, (Keep.krun c exitWitness Keep.KSt.init).2.all (fun r => match r with | .ok _ => true | _ => false) = true) ∧
+    Keep.endLedger Cfg.default exitWitness = [1, 0] ∧ Keep.endLedger Keep.ngcCfg exitWitness = [0] ∧
+    ¬ C18_process_end_statement := by
+  have h1 : Keep.endLedger Cfg.default exitWitness = [1, 0] := by
+    rw [Keep.endLedger_gc (c := Cfg.default) rfl, Keep.used_config_independent Cfg.default Keep.ngcCfg]
+    decide +kernel
+  have h2 : Keep.endLedger Keep.ngcCfg exitWitness = [0] := by decide +kernel
+  refine ⟨?_, h1, h2, ?_⟩
+  · intro c
+    rw [(C18_keep_config_independent c Keep.ngcCfg exitWitness).1]
+    decide +kernel
+  · intro h
+    have := h Cfg.default Keep.ngcCfg exitWitness
+    rw [h1, h2] at this
+    exact absurd this (by decide)
+
+/-- **C18 at process end, for programs that release what they create (partial: hypothesis `ReleasesAll`).** If, in the build
+    without a collector, no `Tracked` object is still allocated when the program ends — i.e. every object whose destructor can
+    be observed was deleted by the program itself, none left to the collector or to exit-time teardown — then the ledger of
+    destructors that have run by the end of the process is the same in all eight configurations: every object ever made,
+    each once.  (Objects whose destructors only release memory — Int, String, Ref, containers, garbage of `hchurn` — may be
+    left behind freely.)  Not covered, and false without the hypothesis: `C18_process_end_statement`. -/
+theorem C18_process_end_partial (c₁ c₂ : Cfg) (prog : List Keep.KOp) (h : Keep.ReleasesAll prog) :
+    Keep.endLedger c₁ prog = Keep.endLedger c₂ prog ∧
+    Keep.endLedger c₁ prog = (Keep.krun c₁ prog Keep.KSt.init).1.used := by
+  rw [Keep.endLedger_of_releasesAll c₁ prog h, Keep.endLedger_of_releasesAll c₂ prog h,
+      Keep.used_config_independent c₁ Keep.ngcCfg]
+  exact ⟨rfl, rfl⟩
+
+/-- the hypothesis is met by a program that fills a Table and a chain, lets the collector run, removes with `del` and deletes
+    the holders (5 objects made and finalised); and it excludes the witness above -/
+example :
+    Keep.ReleasesAll [.hnew 0 .tableV, .hput 0 3 0 50, .hput 0 8 1 70, .hnew 1 .chain, .hput 1 0 2 30, .hput 1 1 3 40, .hput 1 0 4 55,
+      .hchurn 100, .gc, .hrem 0 3, .hread 0, .hdel 1, .hdel 0] ∧
+    Keep.endLedger Keep.ngcCfg [.hnew 0 .tableV, .hput 0 3 0 50, .hput 0 8 1 70, .hnew 1 .chain, .hput 1 0 2 30, .hput 1 1 3 40, .hput 1 0 4 55,
+      .hchurn 100, .gc, .hrem 0 3, .hread 0, .hdel 1, .hdel 0] = [4, 3, 2, 1, 0] ∧
+    ¬ Keep.ReleasesAll exitWitness := by
+  decide +kernel
 
 /-! ### non-vacuity, and why the in-contract hypothesis cannot be dropped -/
 
